@@ -3,7 +3,7 @@
    All statements quantify over EVERY reachable state of the life-cycle LTS Srv/Conc.v: any number of requests,
    any interleaving of the receive, worker, responder and send steps, any behaviour of the implementation. *)
 From Coq Require Import NArith List Bool PeanoNat.
-From V9 Require Shape.ShapeLib Shape.PFid.
+From V9 Require Shape.ShapeLib Shape.PFid Shape.PDisc.
 From V9 Require Import Lib.GoSem Gen.Consts Srv.Conc Srv.ConcProofs.
 From V9 Require Srv.FidRef Srv.FidRefProofs.
 From V9 Require Srv.Seq.
@@ -117,3 +117,10 @@ Theorem C11_all_fids_destroyed_exactly_once_in_source : forall s,
   (forall o, In o (FidRef.objs s) -> FidRef.o_destroyed o = 1) /\ FidRef.table s = [].
 Proof. exact PFid.quiescent_all_destroyed_once_src. Qed.
 Print Assumptions C11_all_fids_destroyed_exactly_once_in_source.
+
+
+(* ---- a modelling assumption about the shape of the CURRENT source (Gen/Shape.v), re-checked on every run ---- *)
+(* Respond hands the reply over with a select on reqout and done; send keeps serving the queue after a write error; the implementation is called without a library mutex *)
+Theorem C11_source_disconnect_paths : ShapeLib.disconnect_paths = true.
+Proof. exact PDisc.disconnect_paths_ok. Qed.
+Print Assumptions C11_source_disconnect_paths.
